@@ -28,10 +28,16 @@ func run(e *ev.Env) {
 	vt.Start()
 	setHook(nil)
 	corpus(e)
-	e.Cases("timed", e.N(3000, 200000), func(c *ev.Case) { runTimed(e, c) })
+	// Counts are per invocation. Every cache.New leaves a goroutine behind that wakes every
+	// 300 ms of virtual time for the rest of the process (plus a 1 s ticker per memory store), so
+	// the cost of a process grows with the square of the number of apps it has built: ~3000 apps
+	// per shard is the practical limit. The thorough totals of DESIGN 3.C14 (200 000 histories,
+	// 300 000 schedules) are reached by repeating the invocation with derived seeds
+	// (checks_table "reps": 10), not by one long-lived process.
+	e.Cases("timed", e.N(3000, 20000), func(c *ev.Case) { runTimed(e, c) })
 	e.Cases("exh", len(exhScenarios()), func(c *ev.Case) { runExh(e, c) })
 	// a case explores up to schedPerCase schedules of one generated scenario
-	e.Cases("sched", e.N(3000, 300000)/schedPerCase(e), func(c *ev.Case) { runSched(e, c) })
+	e.Cases("sched", e.N(3000, 30000)/schedPerCase(e), func(c *ev.Case) { runSched(e, c) })
 }
 
 func schedPerCase(e *ev.Env) int { return e.N(50, 200) }
